@@ -24,14 +24,16 @@ fn hx(b: &[u8]) -> String {
 pub struct Rec {
     pub entries: BTreeSet<String>,
     pub on: bool,
+    /// do not record the evaluations inside Algorithm 2.B (the driver uses Lean-native primitives there)
+    pub skip_kdf: bool,
 }
 
 impl Rec {
     pub fn new() -> Rec {
-        Rec { entries: BTreeSet::new(), on: true }
+        Rec { entries: BTreeSet::new(), on: true, skip_kdf: false }
     }
     pub fn off() -> Rec {
-        Rec { entries: BTreeSet::new(), on: false }
+        Rec { entries: BTreeSet::new(), on: false, skip_kdf: false }
     }
     fn put(&mut self, s: String) {
         if self.on {
@@ -280,6 +282,8 @@ pub fn alg45_u(rec: &mut Rec, pr: &Params, file_key: &[u8], tail: &[u8; 16]) -> 
 
 /// Algorithm 2.B: the hash of revision 6 (`udata` empty or the 48-byte /U)
 pub fn alg2b_hash(rec: &mut Rec, pw: &[u8], salt: &[u8], udata: &[u8]) -> Vec<u8> {
+    let mut local = Rec::off();
+    let rec: &mut Rec = if rec.skip_kdf { &mut local } else { rec };
     let mut first = pw.to_vec();
     first.extend_from_slice(salt);
     first.extend_from_slice(udata);
@@ -439,12 +443,22 @@ pub fn authenticate(rec: &mut Rec, pr: &Params, o: &[u8], u: &[u8], oe: &[u8], u
             None => return Auth::Wrong,
         };
         let zero = [0u8; 16];
-        // owner first, as Algorithm 2.A has it
-        if hash56(rec, pr.r, &p, &o[32..40], u) == o[..32] {
+        // Algorithm 2.A tests the owner password first; a reader may just as well evaluate the user
+        // check first (pdf-rs does), so both validation hashes are evaluated (and recorded) up front.
+        let oh = hash56(rec, pr.r, &p, &o[32..40], u);
+        let uh = hash56(rec, pr.r, &p, &u[32..40], &[]);
+        if oh == o[..32] {
             let ik = hash56(rec, pr.r, &p, &o[40..48], u);
-            return Auth::Key(cbc_decrypt_nopad(rec, &ik, &zero, oe));
+            let k_owner = cbc_decrypt_nopad(rec, &ik, &zero, oe);
+            if uh == u[..32] {
+                // the same password in both roles: either path must give the same file key
+                let ik = hash56(rec, pr.r, &p, &u[40..48], &[]);
+                let k_user = cbc_decrypt_nopad(rec, &ik, &zero, ue);
+                assert_eq!(k_owner, k_user);
+            }
+            return Auth::Key(k_owner);
         }
-        if hash56(rec, pr.r, &p, &u[32..40], &[]) == u[..32] {
+        if uh == u[..32] {
             let ik = hash56(rec, pr.r, &p, &u[40..48], &[]);
             return Auth::Key(cbc_decrypt_nopad(rec, &ik, &zero, ue));
         }
